@@ -19,7 +19,7 @@ r = sh("git", "merge", "--no-commit", "--no-ff", br)
 sh("git", "checkout", "HEAD", "--", "known_findings.json")
 bad = [l for l in sh("git", "diff", "--name-only", "--diff-filter=U").stdout.split() if l]
 if bad:
-    sys.exit("conflicts left in: %s" % bad)
+    print("CONFLICTS LEFT in: %s -- resolve them by hand, `git add` them; the known findings ARE applied below" % bad)
 ids = {f["id"]: i for i, f in enumerate(ko["findings"])}
 for f in changed:
     txt = json.dumps(f)
